@@ -51,9 +51,9 @@ Definition chk_bool (b : bool) (z : Z) : bool := (bool_py2sql b =? z) && Bool.eq
 
 (* JsonConverter.validate / ArrayConverter.validate on tracked values: expected = (kept as is?, notified (owner, attr)) *)
 Definition chk_json_validate (obj attr : Z) (v : tval) (kept : bool) (owner oattr : Z) : bool :=
-  Bool.eqb (json_keeps obj attr v) kept && opt_eqb (fun a b => (fst a =? fst b) && (snd a =? snd b)) (tv_notifies (json_validate obj attr v)) (Some (owner, oattr)).
+  Bool.eqb (tval_eqb (json_validate obj attr v) (tv_unwrap v)) kept && opt_eqb (fun a b => (fst a =? fst b) && (snd a =? snd b)) (tv_notifies (json_validate obj attr v)) (Some (owner, oattr)).
 Definition chk_array_validate (obj attr : Z) (v : tval) (kept : bool) (owner oattr : Z) : bool :=
-  Bool.eqb (array_keeps obj attr v) kept && opt_eqb (fun a b => (fst a =? fst b) && (snd a =? snd b)) (tv_notifies (array_validate obj attr v)) (Some (owner, oattr)).
+  Bool.eqb (tval_eqb (array_validate obj attr v) v) kept && opt_eqb (fun a b => (fst a =? fst b) && (snd a =? snd b)) (tv_notifies (array_validate obj attr v)) (Some (owner, oattr)).
 
 (* Oracle / MySQL time stored as an interval *)
 Definition chk_ora_time (t : time_v) (td : Z * Z * Z) : bool :=
